@@ -6,6 +6,7 @@ are lists of (referring, referred) handle pairs, queries are comprehensions.
 The semantics implemented here are the *documented* ones (appendix §11 of
 DESIGN.md); they were read from the code but are written independently of it.
 '''
+import random
 
 CORE_TYPES = ('boolean', 'integer', 'real', 'string', 'unique_id')
 
@@ -281,6 +282,23 @@ def gen_schema(rng, want=None, types_upper=None, profile=None):
         classes.append({'kind': 'Bad%d' % counter['k'], 'bad': True,
                         'attrs': [['Id', T('unique_id')], ['Weird', rng.choice(['void', 'inst_ref', 'date', 'int', 'bool', 'str', 'id', 'unique', 'e', 'eger',
                                                                        'string_', 'Real8', 'uniqueid'])]]})
+    # names are case-insensitive: "some other tool" may spell a key attribute in CREATE ROP / CREATE UNIQUE INDEX (or
+    # in define_association / define_unique_identifier) differently from the column in CREATE TABLE.  The declared
+    # spelling stays in src_keys / tgt_keys / attrs (what the reference uses); the *_as lists are what is written.
+    respell_draw = rng.random()
+    if respell_draw < profile.get('p_respell', 0.15):
+        r2 = random.Random(int(respell_draw * 2 ** 40))
+
+        def respell(n):
+            return r2.choice([n.upper(), n.lower(), n.swapcase()])
+        for a in assocs:
+            if r2.random() < 0.6:
+                a['src_keys_as'] = [respell(k) for k in a['src_keys']]
+            if r2.random() < 0.35:
+                a['tgt_keys_as'] = [respell(k) for k in a['tgt_keys']]
+        for u in uniques:
+            if r2.random() < 0.5:
+                u['attrs_as'] = [respell(k) for k in u['attrs']]
     return {'classes': classes, 'assocs': assocs, 'uniques': uniques}
 
 
